@@ -3,6 +3,7 @@ package net
 import (
 	"encoding/binary"
 	"fmt"
+	"os"
 	"sync"
 	"sync/atomic"
 	"time"
@@ -137,7 +138,7 @@ func hostileFrames(r *rng.R, tag uint32) (chunks [][]byte, desc string) {
 		chunks = append(chunks, netx.Frame(open), f[:r.Intn(len(f))])
 		desc = "truncated frame then close"
 	case 3: // length prefixes
-		n := []uint32{0, 1, 2, 1 << 24, 1<<24 + 1}[r.Intn(5)]
+		n := []uint32{0, 1, 2, 1 << 24, 1<<24 + 1, 1<<31 - 1, 1 << 31, 1<<32 - 1, 0xfffffff0}[r.Intn(9)]
 		var h [4]byte
 		binary.BigEndian.PutUint32(h[:], n)
 		chunks = append(chunks, netx.Frame(open), h[:], r.Bytes(r.Intn(64)))
@@ -377,6 +378,35 @@ func C11(c *runner.Cfg) *report.Result {
 		}
 	}, func(idx int, p any, stack string) {
 		res.Inconcl("harness panic in hostile script %d: %v", idx, p)
+	})
+
+	// (3) frames whose message is nested millions of levels deep (as one frame of ~50 MB, as the frame
+	// itself and as the payload position of an open frame): the recursive message parser must not
+	// exhaust the stack, which would be fatal for the whole process (journal: the worker dies)
+	ndeep := 3
+	if os.Getenv("VERIF_C11_NODEEP") != "" {
+		ndeep = 0
+	}
+	c.Cases("C11/deep", ndeep, func(idx int, slot *journal.Slot) {
+		slot.SetString(fmt.Sprintf("C11/deep:%d a frame nested %d levels deep", idx, []int{20_000, 4_000_000, 4_000_000}[idx]))
+		res.Eval(1)
+		peer, err := netx.DialPeer(addr)
+		if err != nil {
+			res.Inconcl("dial: %v", err)
+			return
+		}
+		defer peer.Close()
+		if err := peer.ClientHandshake(); err != nil {
+			res.Inconcl("valid handshake failed: %v", err)
+			return
+		}
+		deep := netx.DeepMessage([]int{20_000, 4_000_000, 4_000_000}[idx], idx == 2)
+		peer.WriteFrame(deep)
+		peer.ReadUntilEOF(3 * time.Second) // the server drops this connection, or ignores the frame; it must survive
+		res.Nontrivial(rng.HashString(fmt.Sprint("deep", idx)))
+		res.Count("deep_frames_sent", 1)
+	}, func(idx int, p any, stack string) {
+		res.Inconcl("harness panic in deep-frame script %d: %v", idx, p)
 	})
 
 	// the well-behaved client must be untouched
